@@ -71,7 +71,7 @@ Proof.
   intros H. unfold _is_number, _is_float, _is_integer, _is_float_neg, _is_integer_neg,
     _is_float_pos, _is_integer_pos.
   cbn [_is_constant _is_var is_variable meth_is_var isinstance_Var meth_is_constant orb andb negb functor pyfun_eqb].
-  Show.
+  change [39%N; 45%N; 39%N] with minus_quoted. rewrite (unquoted_not_minus f H). rewrite !andb_false_r. reflexivity.
 Qed.
 
 #[export] Hint Rewrite is_var_var is_var_int is_var_flt is_var_str is_var_fun
@@ -79,3 +79,227 @@ Qed.
   is_string_int is_string_flt is_string_str is_string_fun : c15gen.
 #[export] Hint Rewrite is_number_fun using assumption : c15gen.
 #[export] Hint Rewrite compare_Z compare_S compare_F_int cmpZ_eq0 : c15gen.
+
+(* ---------------- struct_cmp against the order, narrow domain (holds with and without the fix) *)
+Lemma digits_text x y : (0 <= x <= 9)%Z -> (0 <= y <= 9)%Z ->
+  text_cmp (py_str_Z x) (py_str_Z y) = Z.compare x y.
+Proof.
+  intros Hx Hy.
+  assert (Ex : (x = 0 \/ x = 1 \/ x = 2 \/ x = 3 \/ x = 4 \/ x = 5 \/ x = 6 \/ x = 7 \/ x = 8 \/ x = 9)%Z) by lia.
+  assert (Ey : (y = 0 \/ y = 1 \/ y = 2 \/ y = 3 \/ y = 4 \/ y = 5 \/ y = 6 \/ y = 7 \/ y = 8 \/ y = 9)%Z) by lia.
+  repeat (destruct Ex as [Ex|Ex]); subst x; repeat (destruct Ey as [Ey|Ey]); subst y; reflexivity.
+Qed.
+
+Lemma cmp_int_int sa x y : std_cmp_gen sa (TInt x) (TInt y) = Z.compare x y.
+Proof.
+  cbn. unfold num_cmp. cbn [num_val num_tag]. rewrite <- Zmult_compare_compat_r by (pose proof fscale_pos; lia).
+  destruct (x ?= y)%Z; reflexivity.
+Qed.
+
+Lemma dom_digits_fun f xs : dom_digits (TFun f xs) = true ->
+  unquoted f = true /\ Forall (fun x => dom_digits x = true) xs.
+Proof.
+  unfold dom_digits. cbn [names_unquoted digits_only]. rewrite !andb_true_iff, !forallb_forall.
+  intros [[U N] D]. split; [exact U|]. apply Forall_forall. intros x Hx.
+  apply andb_true_iff. auto.
+Qed.
+
+
+Lemma depth_fun_lt f xs n : (term_depth (TFun f xs) < S n)%nat -> Forall (fun x => (term_depth x < n)%nat) xs.
+Proof.
+  cbn [term_depth]. intros H. apply Nat.succ_lt_mono in H.
+  induction xs as [|x xs IH]; constructor; cbn [fold_right] in H; [lia|apply IH; lia].
+Qed.
+
+Lemma rank_lt_Lt sa a b : (rank sa a < rank sa b)%nat -> cmpZ (std_cmp_gen sa a b) = (-1)%Z.
+Proof. intros H. rewrite cmp_lt_rank by exact H. reflexivity. Qed.
+Lemma rank_gt_Gt sa a b : (rank sa b < rank sa a)%nat -> cmpZ (std_cmp_gen sa a b) = 1%Z.
+Proof. intros H. rewrite (cmp_opp sa b a), cmp_lt_rank by exact H. reflexivity. Qed.
+
+Ltac rank_tac :=
+  unfold plg_cmp;
+  first [ rewrite rank_lt_Lt; [reflexivity|] | rewrite rank_gt_Gt; [reflexivity|] ];
+  repeat match goal with |- context[rank _ (TFun _ ?l)] => is_var l; destruct l end; cbn; lia.
+
+Lemma struct_cmp_fuel_digits fr : forall n a b,
+  (term_depth a < n)%nat -> dom_digits a = true -> dom_digits b = true ->
+  struct_cmp_fuel fr n a b = cmpZ (plg_cmp a b).
+Proof.
+  induction n as [|n IH]; intros a b Hd Ha Hb; [lia|].
+  destruct a as [x|x|x|s|f xs], b as [y|y|y|t|g ys]; try discriminate Ha; try discriminate Hb;
+  try (apply dom_digits_fun in Ha; destruct Ha as [Ua Fa]);
+  try (apply dom_digits_fun in Hb; destruct Hb as [Ub Fb]);
+  cbn [struct_cmp_fuel];
+  autorewrite with c15gen; cbn beta iota;
+  try (unfold plg_cmp; cbn; reflexivity); try rank_tac.
+  - (* var, var *) cbn [var_key isinstance_Term functor]. rewrite compare_F_int. reflexivity.
+  - (* int, int *)
+    unfold plg_cmp. rewrite cmp_int_int.
+    change (py_float (TInt x)) with (x * fscale)%Z. change (py_float (TInt y)) with (y * fscale)%Z.
+    rewrite <- Zmult_compare_compat_r by (pose proof fscale_pos; lia).
+    unfold dom_digits in Ha, Hb. cbn in Ha, Hb.
+    cbn [arity functor py_str_functor args].
+    rewrite ?digits_text by lia.
+    destruct (x ?= y)%Z; reflexivity.
+  - (* fun, fun *)
+    unfold plg_cmp. rewrite std_cmp_fun.
+    cbn [arity functor py_str_functor args].
+    rewrite Nat2Z.inj_compare.
+    apply depth_fun_lt in Hd.
+    destruct (Nat.compare_spec (length xs) (length ys)) as [L|L|L]; cbn; try reflexivity.
+    destruct (text_cmp f g); cbn; try reflexivity.
+    clear Ua Ub f g. revert ys Fb L.
+    induction xs as [|x xs IHxs]; intros [|y ys] Fb L; try discriminate L; cbn [list_cmp]; [reflexivity|].
+    inversion Hd; subst. inversion Fa; subst. inversion Fb; subst.
+    rewrite IH by assumption. rewrite cmpZ_eq0.
+    fold plg_cmp. destruct (plg_cmp x y); cbn; try reflexivity.
+    apply IHxs; auto.
+Qed.
+
+Lemma struct_cmp_digits fr a b :
+  dom_digits a = true -> dom_digits b = true -> struct_cmp fr a b = cmpZ (plg_cmp a b).
+Proof. intros Ha Hb. unfold struct_cmp. apply struct_cmp_fuel_digits; auto. Qed.
+
+(* ---------------- denote is the identity on unquoted names *)
+Lemma atom_text_unquoted f : unquoted f = true -> atom_text f = f.
+Proof.
+  destruct f as [|c f]; [reflexivity|]. cbn. intros H. apply negb_true_iff in H. rewrite H. reflexivity.
+Qed.
+Lemma denote_unquoted : forall t, names_unquoted t = true -> denote t = t.
+Proof.
+  induction t using term_ind'; cbn; intros U; try reflexivity.
+  apply andb_true_iff in U. destruct U as [U1 U2]. rewrite atom_text_unquoted by exact U1. f_equal.
+  rewrite forallb_forall in U2. induction H as [|x xs Hx _ IHxs]; [reflexivity|]. cbn. f_equal.
+  - apply Hx. apply U2. left. reflexivity.
+  - apply IHxs. intros y Hy. apply U2. right. exact Hy.
+Qed.
+
+(* ---------------- without strings ProbLog's documented order is the SWI order *)
+Lemma rank_compare_nostr a b : no_strings a = true -> no_strings b = true ->
+  Nat.compare (rank true a) (rank true b) = Nat.compare (rank false a) (rank false b).
+Proof.
+  destruct a as [x|x|x|s|f [|x xs]], b as [y|y|y|t|g [|y ys]]; cbn [no_strings]; intros; try discriminate; reflexivity.
+Qed.
+Lemma plg_std_nostr : forall a b, no_strings a = true -> no_strings b = true -> plg_cmp a b = std_cmp a b.
+Proof.
+  unfold plg_cmp, std_cmp.
+  induction a using term_ind'; intros b Na Nb; rewrite !cmp_unfold, rank_compare_nostr by assumption;
+    destruct (Nat.compare _ _); try reflexivity; destruct b; try reflexivity; try discriminate Na.
+  cbn [same_class]. f_equal. f_equal.
+  cbn [no_strings] in Na, Nb. rewrite forallb_forall in Na, Nb.
+  revert args Nb. induction H as [|x xs Hx _ IHxs]; intros [|y ys] Nb; try reflexivity.
+  cbn [list_cmp]. rewrite Hx.
+  - f_equal. apply IHxs.
+    + intros z Hz. apply Na. right. exact Hz.
+    + intros z Hz. apply Nb. right. exact Hz.
+  - apply Na. left. reflexivity.
+  - apply Nb. left. reflexivity.
+Qed.
+
+(* ---------------- consequences for the builtins, for any domain on which
+   struct_cmp is the order *)
+Section Consequences.
+  Variable fr : Z -> text.
+  Variable D : term -> bool.
+  Hypothesis HD : forall a b, D a = true -> D b = true -> struct_cmp fr a b = cmpZ (plg_cmp a b).
+
+  Lemma lt_spec a b : D a = true -> D b = true -> _builtin_struct_lt fr a b = is_Lt (plg_cmp a b).
+  Proof. intros. unfold _builtin_struct_lt. rewrite HD by assumption. apply cmpZ_lt0. Qed.
+  Lemma le_spec a b : D a = true -> D b = true -> _builtin_struct_le fr a b = negb (is_Gt (plg_cmp a b)).
+  Proof. intros. unfold _builtin_struct_le. rewrite HD by assumption. apply cmpZ_le0. Qed.
+  Lemma gt_spec a b : D a = true -> D b = true -> _builtin_struct_gt fr a b = is_Gt (plg_cmp a b).
+  Proof. intros. unfold _builtin_struct_gt. rewrite HD by assumption. apply cmpZ_gt0. Qed.
+  Lemma ge_spec a b : D a = true -> D b = true -> _builtin_struct_ge fr a b = negb (is_Lt (plg_cmp a b)).
+  Proof. intros. unfold _builtin_struct_ge. rewrite HD by assumption. apply cmpZ_ge0. Qed.
+
+  Lemma token_spec a b : D a = true -> D b = true ->
+    _builtin_compare_token fr a b = order_token (plg_cmp a b).
+  Proof.
+    intros. unfold _builtin_compare_token. rewrite HD by assumption.
+    destruct (plg_cmp a b); reflexivity.
+  Qed.
+  Lemma check_spec tok a b : D a = true -> D b = true ->
+    _builtin_compare_check fr (TFun tok []) a b = text_eqb (order_token (plg_cmp a b)) tok.
+  Proof. intros. unfold _builtin_compare_check. rewrite token_spec by assumption. reflexivity. Qed.
+  Lemma answer_spec a b : D a = true -> D b = true ->
+    _builtin_compare_answer fr a b = TFun (order_token (plg_cmp a b)) [].
+  Proof. intros. unfold _builtin_compare_answer. rewrite token_spec by assumption. reflexivity. Qed.
+
+  Lemma sort_spec xs s : Forall (fun x => D x = true) xs -> is_py_set xs s ->
+    _builtin_sort_sorted fr s = plg_sort xs.
+  Proof.
+    intros F S. unfold _builtin_sort_sorted, plg_sort.
+    apply (py_sorted_set plg_cmp (cmp_refl true) (cmp_eq true) (cmp_opp true) (cmp_trans true)); [|exact S].
+    rewrite Forall_forall in F. intros x y Hx Hy.
+    unfold StructSort__lt__. rewrite HD by auto. apply cmpZ_lt0.
+  Qed.
+End Consequences.
+
+Lemma same_spec a b : _builtin_same a b = is_Eq (plg_cmp a b).
+Proof.
+  unfold _builtin_same. destruct (plg_cmp a b) eqn:E.
+  - apply cmp_eq in E. subst. apply term_eqb_eq. reflexivity.
+  - destruct (term_eqb a b) eqn:T; [|reflexivity]. apply term_eqb_eq in T. subst.
+    unfold plg_cmp in E. rewrite cmp_refl in E. discriminate.
+  - destruct (term_eqb a b) eqn:T; [|reflexivity]. apply term_eqb_eq in T. subst.
+    unfold plg_cmp in E. rewrite cmp_refl in E. discriminate.
+Qed.
+Lemma notsame_spec a b : _builtin_notsame a b = negb (is_Eq (plg_cmp a b)).
+Proof. unfold _builtin_notsame. rewrite <- same_spec. reflexivity. Qed.
+
+Lemma mode_given tok a b :
+  In tok [order_token Lt; order_token Eq; order_token Gt] -> _builtin_compare_mode (TFun tok []) a b = Some 0%Z.
+Proof. cbn. intros [<-|[<-|[<-|[]]]]; reflexivity. Qed.
+Lemma mode_unbound v a b : _builtin_compare_mode (TVar v) a b = Some 1%Z.
+Proof. reflexivity. Qed.
+
+(* ---------------- packaged for Props.v *)
+Lemma dom_digits_unquoted a : dom_digits a = true -> names_unquoted a = true.
+Proof. unfold dom_digits. intros H. apply andb_true_iff in H. tauto. Qed.
+
+Lemma struct_cmp_digits_denote fr a b :
+  dom_digits a = true -> dom_digits b = true ->
+  struct_cmp fr a b = cmpZ (plg_cmp (denote a) (denote b)).
+Proof.
+  intros Ha Hb. rewrite !denote_unquoted by (apply dom_digits_unquoted; assumption).
+  apply struct_cmp_digits; assumption.
+Qed.
+Lemma no_strings_denote : forall t, no_strings (denote t) = no_strings t.
+Proof.
+  induction t using term_ind'; cbn; try reflexivity.
+  induction H as [|x xs Hx _ IHxs]; [reflexivity|]. cbn. rewrite Hx, IHxs. reflexivity.
+Qed.
+Lemma struct_cmp_digits_swi fr a b :
+  dom_digits a = true -> dom_digits b = true -> no_strings a = true -> no_strings b = true ->
+  struct_cmp fr a b = cmpZ (std_cmp (denote a) (denote b)).
+Proof.
+  intros Ha Hb Na Nb. rewrite struct_cmp_digits_denote by assumption.
+  rewrite plg_std_nostr by (rewrite no_strings_denote; assumption). reflexivity.
+Qed.
+Lemma ops_digits fr a b :
+  dom_digits a = true -> dom_digits b = true ->
+  _builtin_struct_lt fr a b = is_Lt (plg_cmp a b) /\
+  _builtin_struct_le fr a b = negb (is_Gt (plg_cmp a b)) /\
+  _builtin_struct_gt fr a b = is_Gt (plg_cmp a b) /\
+  _builtin_struct_ge fr a b = negb (is_Lt (plg_cmp a b)).
+Proof.
+  intros Ha Hb. pose proof (struct_cmp_digits fr) as HD.
+  repeat split; [eapply lt_spec|eapply le_spec|eapply gt_spec|eapply ge_spec]; eauto.
+Qed.
+Lemma compare3_digits fr a b :
+  dom_digits a = true -> dom_digits b = true ->
+  _builtin_compare_answer fr a b = TFun (order_token (plg_cmp a b)) [] /\
+  forall tok, _builtin_compare_check fr (TFun tok []) a b = text_eqb (order_token (plg_cmp a b)) tok.
+Proof.
+  intros Ha Hb. pose proof (struct_cmp_digits fr) as HD. split.
+  - eapply answer_spec; eauto.
+  - intros tok. eapply check_spec; eauto.
+Qed.
+Lemma compare3_modes a b :
+  (forall v, _builtin_compare_mode (TVar v) a b = Some 1%Z) /\
+  (forall c, _builtin_compare_mode (TFun (order_token c) []) a b = Some 0%Z).
+Proof. split; [reflexivity|]. intros []; reflexivity. Qed.
+Lemma sort_digits fr xs s :
+  Forall (fun x => dom_digits x = true) xs -> is_py_set xs s ->
+  _builtin_sort_sorted fr s = plg_sort xs.
+Proof. apply sort_spec. apply struct_cmp_digits. Qed.
